@@ -30,7 +30,10 @@ CONSTANTS Targets,      \* target identities
 NoLink == "none"
 VARIABLES targets, dims, act, hist
 vars == << targets, dims, act, hist >>
-View == << targets, dims >>
+State == << targets, dims >>
+\* the view keeps one history per state AND per "the last call was refused": every call is also explored right after a
+\* refused one (a refusal stutters, but what it leaves behind in the implementation's session would show next)
+View == << State, act.out # "ok" >>
 
 CanStep == Len(hist) < MaxDepth
 Log(a) == act' = a /\ hist' = Append(hist, a)
@@ -52,6 +55,14 @@ AppendDim(k) ==
     /\ CanStep /\ Len(dims) < MaxDims
     /\ dims' = Append(dims, NewDim(k))
     /\ Log([name |-> "AppendDim", k |-> k, out |-> "ok"]) /\ UNCHANGED targets
+
+\* a descriptor appended with an argument of the wrong kind is refused - and must not be there afterwards
+BadAppends == { << "sampled", "interval_text" >>, << "sampled", "unit_type" >>, << "sampled", "label_type" >>,
+                << "range", "ticks_unsorted" >>, << "range", "ticks_text" >>, << "range", "unit_type" >>,
+                << "range", "label_type" >>, << "set", "labels_nonstring" >> }
+AppendDimBad(b) ==
+    /\ CanStep /\ Len(dims) < MaxDims /\ "faults" \in Ops
+    /\ Refuse([name |-> "AppendDimBad", k |-> b[1], why |-> b[2], out |-> "refused:BadArgument"])
 
 \* ticks of a range dimension / labels of a set dimension, given explicitly
 SetOwn(i, v) ==
@@ -113,6 +124,7 @@ Init == /\ targets = [t \in Targets |-> [rank |-> RankOf[t], data |-> 1, unit |-
 
 Next ==
     \/ \E k \in { "sampled", "range", "set" } : AppendDim(k)
+    \/ \E b \in BadAppends : AppendDimBad(b)
     \/ \E i \in 1..MaxDims, v \in Toks : SetOwn(i, v)
     \/ \E i \in 1..MaxDims : SetTicksUnordered(i)
     \/ \E i \in 1..MaxDims, f \in { "lab", "un" }, v \in Toks : SetAttr(i, f, v)
@@ -148,7 +160,7 @@ TicksXorLink == \A i \in 1..Len(dims) : dims[i].k = "range" => ~(dims[i].own # 0
 LinkOK == \A i \in 1..Len(dims) : Linked(dims[i]) => (dims[i].k # "sampled" /\ dims[i].idx \in GoodIdx(dims[i].lnk))
 
 Refused == act'.out # "ok"
-RefusedUnchanged == [][Refused => View' = View]_vars
+RefusedUnchanged == [][Refused => State' = State]_vars
 \* aliasing: whatever changes on a target is what every descriptor linked to it reports, immediately
 AliasReports == [][act'.name = "WriteTarget" =>
     \A i \in 1..Len(dims) : Linked(dims[i]) /\ dims[i].lnk = act'.t =>
